@@ -341,3 +341,55 @@ package ipfslog
 //@     invariant forall i int :: 0 <= i && i < $k ==> mergedHeads[i] == nil || validEntry(mergedHeads[i])
 //@     invariant forall i int :: $k <= i && i < len(mergedHeads) ==> validEntry(mergedHeads[i])
 //@     loopfresh
+
+// ---- log_io.go (C10, C09): loaders ----
+//@ func entrySlice
+//@   requires index >= 0 - 9223372036854775807
+//@   pure
+//@   ensures [negative-index-keeps-the-last-entries] index < 0 && 0 - index < len(entries) ==> result == entries[len(entries) + index:]
+//@   ensures [index-beyond-length-keeps-all] index < 0 && 0 - index >= len(entries) && len(entries) > 0 ==> result == entries
+//@   ensures [positive-index-drops-a-prefix] index > 0 && index < len(entries) ==> result == entries[index:]
+//@   ensures len(entries) == 0 || index >= len(entries) ==> len(result) == 0
+//@   ensures index == 0 && len(entries) > 0 ==> result == entries
+//@   ensures len(result) <= len(entries)
+
+//@ func entrySliceRange
+//@   pure
+//@   ensures len(result) <= len(entries)
+//@   ensures [in-range-slice] 0 <= from && from < to && to <= len(entries) ==> result == entries[from:to]
+//@   ensures from >= len(entries) || (0 <= from && 0 <= to && from >= to) ==> len(result) == 0
+
+//@ func fromEntryHash
+//@   requires options == nil || (options.SortFn == nil || true)
+//@   requires validAnyIO(io)
+//@   ensures services == nil || options == nil ==> err != nil
+//@   ensures [entry-hash-load-respects-the-limit] err == nil && options.Length != nil && deref(options.Length) >= 0 ==> len(result0) <= max(deref(options.Length), 1)
+//@   ensures err == nil ==> validSlice(result0)
+
+//@ func fromMultihash
+//@   requires options != nil && validAnyIO(io) && services != nil
+//@   ensures [manifest-load-respects-the-limit] err == nil && options.Length != nil && deref(options.Length) >= 0 ==> len(result0.Values) <= deref(options.Length)
+//@   ensures err == nil ==> result0 != nil && validSlice(result0.Values)
+//@   replay loadlimit
+//@   loop 0
+//@     invariant validSlice(entries) && (heads == nil || fresh(heads)) && logHeads != nil
+//@   loop 1
+//@     invariant validSlice(entries) && (heads == nil || fresh(heads)) && logHeads != nil && validEntry(e)
+
+//@ func fromJSON
+//@   requires options == nil || options.IO == nil || validAnyIO(options.IO)
+//@   requires jsonLog != nil
+//@   ensures services == nil || options == nil ==> err != nil
+//@   ensures [json-load-respects-the-limit] err == nil && options.Length != nil && deref(options.Length) >= 0 ==> len(result0.Values) <= deref(options.Length)
+//@   ensures err == nil ==> result0 != nil && validSlice(result0.Values)
+//@   replay loadlimit
+
+//@ func fromEntry
+//@   requires validSlice(sourceEntries) && (options == nil || (validSlice(options.Exclude) && (options.IO == nil || validAnyIO(options.IO))))
+//@   ensures services == nil || options == nil ==> err != nil
+//@   ensures [entry-load-respects-the-limit] err == nil && options.Length != nil && deref(options.Length) >= 0 ==> len(result0.Values) <= max(deref(options.Length), len(sourceEntries))
+//@   ensures [entry-load-keeps-every-supplied-entry] err == nil ==> forall i int :: 0 <= i && i < len(sourceEntries) ==> exists j int :: 0 <= j && j < len(result0.Values) && ehash(result0.Values[j]) == ehash(sourceEntries[i])
+//@   ensures err == nil ==> result0 != nil && validSlice(result0.Values)
+//@   replay loadlimit
+//@   loop 0
+//@     invariant len(hashes) == $k && (hashes == nil || fresh(hashes))
